@@ -540,7 +540,7 @@ func (c *seqCtx) checkRec(r *Rec) {
 		for i := 0; i < op.N; i++ {
 			delete(m.ent, op.Key+i)
 		}
-	case XPass:
+	case XPass, XGC:
 	default:
 		panic(fmt.Sprintf("model: unexpected op %v", op))
 	}
